@@ -684,8 +684,15 @@ def _ecies(ctx: Ctx, faults: bool) -> None:
     q = gk.scalar(ch, "recipient")
     msg = ch.nbytes(ch.pick([5, 0, 15, 16, 17, 32, 70], "msglen"), "msg")
     magic = ch.pick([ecies.MAGIC, b"BIE2"], "magic")
+    # the recipient's key as the sender was handed it: every spelling PubKey declares
+    Q = mult(q)
+    sec33 = bytes([2 + Q[1] % 2]) + Q[0].to_bytes(32, "big")
+    sec65 = b"\x04" + Q[0].to_bytes(32, "big") + Q[1].to_bytes(32, "big")
+    spelling = ch.pick(["point", "sec33", "sec65", "hex33", "hex65"], "ecies.pub-spelling")
+    pub: Any = {"point": Q, "sec33": sec33, "sec65": sec65, "hex33": sec33.hex(), "hex65": sec65.hex()}[spelling]
+    ctx.state(f"ecies:{spelling}")
     with ctx.must_succeed(P, "honest-step-succeeds", "ecies.encrypt"):
-        armor = ecies.encrypt(msg, mult(q), _toy_encrypt, magic=magic)
+        armor = ecies.encrypt(msg, pub, _toy_encrypt, magic=magic)
     _flip(ctx, "backend.rcpt")
     with ctx.must_succeed(P, "honest-step-succeeds", "ecies.decrypt"):
         back = ecies.decrypt(armor, q, _toy_decrypt, magic=magic)
